@@ -540,7 +540,8 @@ static void grow_case(int kind, long n) {
       const void* blk = kind <= 1 ? (const void*)c->data : (const void*)((struct cbor_indefinite_string_data*)c->data)->chunks;
       size_t capn = kind == 0 ? cbor_array_allocated(c) : kind == 1 ? cbor_map_allocated(c) : ((struct cbor_indefinite_string_data*)c->data)->chunk_capacity;
       size_t elem = kind == 1 ? sizeof(struct cbor_pair) : sizeof(cbor_item_t*);
-      if (capn > 0 && (!blk || va_block_size(blk) < capn * elem)) under++;
+      /* (only when the container's buffer is a block of its own: a representation that embeds it elsewhere is not judged here) */
+      if (capn > 0 && blk && va_block_size(blk) != (size_t)-1 && va_block_size(blk) < capn * elem) under++;
     }
     size_t nc = kind == 0 ? cbor_array_allocated(c) : kind == 1 ? cbor_map_allocated(c) : ((struct cbor_indefinite_string_data*)c->data)->chunk_capacity;
     size_t sz = kind == 0 ? cbor_array_size(c) : kind == 1 ? cbor_map_size(c) : nkids(c);
